@@ -2537,7 +2537,10 @@ class DataFrame(FrameBase):
 
     @property
     def shape(self):
-        return self.size / max(len(self.columns), 1), len(self.columns)
+        if len(self.columns) == 0:
+            # The size of a frame without columns is 0
+            return new_collection(Len(self)), 0
+        return self.size / len(self.columns), len(self.columns)
 
     @property
     def ndim(self):
